@@ -158,68 +158,41 @@ def rule_dec(ctx):
     empties = [n for n in walk_no_nested(pl) if isinstance(n, ast.If) and isinstance(n.test, ast.UnaryOp) and isinstance(n.test.op, ast.Not) and any(isinstance(s, ast.Raise) for s in n.body)]
     ctx.ob("C06.DEC", pl, "an empty read (peer closed) raises instead of being parsed", bool(empties), "parse_line does not reject an empty read", construct="parse_line:empty")
     pr = p.method("BaseClient", "parse_response")
+    # framing decision: abstract evaluation of the decoder against the reference framing over all line-kind sequences of length <= 3
+    from .. import decoder
+    n_seq, diffs = decoder.compare(pr, 3)
+    groups = {}
+    for lines, got, want in diffs:
+        groups.setdefault((got[0], want[0]), []).append((lines, got, want))
+    by_first = {}
+    for kind in decoder.KINDS:
+        bad = [d for d in diffs if d[0][0][2] == kind]
+        wit = decoder.render(bad[0][0]) if bad else None
+        ctx.ob("C06.DEC", pr, f"decoder == reference framing on every line sequence (length <= 3) whose first text is of kind {kind!r}", not bad,
+               (f"reply decoder deviates from the framing on the line sequence {wit}: it gives {bad[0][1]} where the framing requires {bad[0][2]} "
+                "('more' = keeps waiting for lines / swallows the next reply, 'done' = ends the reply, 'reject' = raises)") if bad else "",
+               construct=f"parse_response:framing:first={kind!r}:{bad[0][1][0] if bad else ''} vs {bad[0][2][0] if bad else ''}")
+    ctx.note(f"decoder abstract evaluation: {n_seq} line sequences, {len(diffs)} deviations")
     loops = [n for n in walk_no_nested(pr) if isinstance(n, ast.While)]
     if len(loops) != 1:
-        raise Inconclusive("C06.DEC: parse_response has no single while loop; decoder shape not recognised")
+        if diffs:
+            return
+        raise Inconclusive("C06.DEC: parse_response has no single while loop; content rules (re-join, append) cannot be located")
     w = loops[0]
-    # names: code, rest = await self.parse_line(); curr_code, curr_rest inside
     first = [n for n in pr.body if isinstance(n, ast.Assign) and isinstance(n.value, ast.Await) and is_self_call(n.value.value, {"parse_line"})]
-    if not first or not isinstance(first[0].targets[0], ast.Tuple):
-        raise Inconclusive("C06.DEC: first parse_line unpack not recognised")
-    code0, rest0 = [e.id for e in first[0].targets[0].elts]
     inner = [n for n in walk_no_nested(w) if isinstance(n, ast.Assign) and isinstance(n.value, ast.Await) and is_self_call(n.value.value, {"parse_line"})]
-    if not inner or not isinstance(inner[0].targets[0], ast.Tuple):
-        raise Inconclusive("C06.DEC: inner parse_line unpack not recognised")
+    if not first or not isinstance(first[0].targets[0], ast.Tuple) or not inner or not isinstance(inner[0].targets[0], ast.Tuple):
+        if diffs:
+            return
+        raise Inconclusive("C06.DEC: parse_line unpacks not recognised; content rules cannot be located")
+    code0, rest0 = [e.id for e in first[0].targets[0].elts]
     ccode, crest = [e.id for e in inner[0].targets[0].elts]
-    # evaluate the loop test over the abstract table: rest kind in {'-x' (continuation), ' x' (final), '' (final, empty text)} x head numeric?
-    curr = None
-    for n in walk_no_nested(pr):
-        if isinstance(n, ast.Assign) and isinstance(n.targets[0], ast.Name) and isinstance(n.value, ast.Name) and n.value.id == rest0:
-            curr = n.targets[0].id
-
-    def ev_test(t, rest_kind, numeric):
-        if isinstance(t, ast.BoolOp):
-            vs = [ev_test(v, rest_kind, numeric) for v in t.values]
-            if None in vs:
-                return None
-            return any(vs) if isinstance(t.op, ast.Or) else all(vs)
-        if isinstance(t, ast.UnaryOp) and isinstance(t.op, ast.Not):
-            v = ev_test(t.operand, rest_kind, numeric)
-            return None if v is None else not v
-        if isinstance(t, ast.Call) and isinstance(t.func, ast.Attribute):
-            recv = t.func.value
-            if t.func.attr == "startswith" and isinstance(recv, ast.Name) and t.args and isinstance(t.args[0], ast.Constant):
-                return {"-x": "-", " x": " ", "": ""}[rest_kind].startswith(t.args[0].value) if t.args[0].value else True
-            if t.func.attr in ("isdigit", "isdecimal", "isnumeric") and isinstance(recv, ast.Name):
-                return numeric
-        if isinstance(t, ast.Name):
-            return None
-        return None
-    table = {}
-    for rk in ("-x", " x", ""):
-        for num in (True, False):
-            table[(rk, num)] = ev_test(w.test, rk, num)
-    if any(v is None for v in table.values()):
-        raise Inconclusive("C06.DEC: continuation test of the reply decoder is outside the rule's vocabulary: " + src(w.test))
-    want = {("-x", True): True, ("-x", False): True, (" x", True): False, (" x", False): True, ("", True): False, ("", False): True}
-    for k, v in sorted(table.items()):
-        ctx.ob("C06.DEC", w, f"decoder loop continues for (separator/text kind {k[0]!r}, numeric head={k[1]}) = {v}", v == want[k],
-               f"reply decoder: for a line with text kind {k[0]!r} and numeric head={k[1]} the loop {'continues' if v else 'stops'}; it must {'continue' if want[k] else 'stop'} "
-               "(a final line with empty text must end the reply; a continuation or unprefixed body line must not)", construct=f"parse_response:test {k}={v}")
-    # the test inspects the *current* line's variables: the receivers are the variables (re)assigned by the parse_line unpack inside the loop
-    cur_vars = {ccode, crest}
-    recvs = {x.func.value.id for x in ast.walk(w.test) if isinstance(x, ast.Call) and isinstance(x.func, ast.Attribute) and isinstance(x.func.value, ast.Name)}
-    pre = {t.id for n in pr.body if isinstance(n, ast.Assign) for t in n.targets if isinstance(t, ast.Name)} | {code0, rest0}
-    ok = bool(recvs) and recvs <= cur_vars and recvs <= pre
-    ctx.ob("C06.DEC", w, f"the loop test inspects the line just read ({sorted(recvs)})", ok,
-           f"the decoder's loop test inspects {sorted(recvs)}, which is not (re)assigned from the line just read / not initialised from the first line", construct="parse_response:test vars")
-    # inside: numeric head -> mismatch rejected; non-numeric -> head re-joined
-    rejects = False
-    rejoin = False
+    rejects = rejoin = False
     for n in walk_no_nested(w):
         if isinstance(n, ast.If) and isinstance(n.test, ast.Compare) and isinstance(n.test.ops[0], ast.NotEq) and {src(n.test.left), src(n.test.comparators[0])} == {ccode, code0} \
                 and any(isinstance(s, ast.Raise) for s in n.body):
             rejects = True
+    for n in walk_no_nested(w):
         if isinstance(n, ast.BinOp) and isinstance(n.op, ast.Add) and src(n.left) == ccode and src(n.right) == crest \
                 and isinstance(p.parent.get(n), ast.Call) and is_method_call(p.parent.get(n), "append"):
             rejoin = True
